@@ -9,6 +9,8 @@
     C05  tempNeedToAdd_is_tempPadLen     EncryptMessageWithTempKeys padding = Mtv.Ige.tempPadLen
     C08  abridged_length_bytes           abridged WriteMsg b1 b2 b3         = Mtv.leBytes (len/4) 3
     C04  parityMod_is_mod4               msg.MsgID & 3                      = msg_id mod 4 (unsigned reading)
+    C10  sendPacketMsgId_is_nextId       sendPacket's bump past lastMsgID   = Mtv.Client.nextId
+    C10  seqNoContent_odd, seqNo_of_even serializePacket's seq_no           = counter | 1 (odd) / counter (even)
 
   Range hypotheses are the ranges in which the Go expression does not wrap; outside them the statements are
   false (witnesses below), which is why they are hypotheses and not defaults.
@@ -162,6 +164,52 @@ theorem abridged_length_bytes (n : Nat) (h : n < 2 ^ 62) :
   have e : n / 4 / 2 ^ 16 = n / 4 / 256 / 256 := by rw [Nat.div_div_eq_div_mul (n / 4) 256 256]
   simp [e]
 example : (abridgedB1 1048576#64, abridgedB2 1048576#64, abridgedB3 1048576#64) = (0#8, 0#8, 4#8) := by decide
+
+
+/-- Go's signed `<=` on non-negative operands -/
+theorem sle_nonneg (x y : BitVec 64) (hx : x.toNat < 2 ^ 63) (hy : y.toNat < 2 ^ 63) :
+    BitVec.sle x y = decide (x.toNat ≤ y.toNat) := by
+  have e1 : x.toInt = x.toNat := by rw [BitVec.toInt_eq_toNat_cond]; split <;> omega
+  have e2 : y.toInt = y.toNat := by rw [BitVec.toInt_eq_toNat_cond]; split <;> omega
+  simp only [BitVec.sle, e1, e2]; congr 1; simp
+
+/-- **C10** the msg_id `sendPacket` writes — `msgID = utils.GenerateMessageId(); if msgID <= m.lastMsgID { msgID = m.lastMsgID + 4 }`,
+translated from network.go with the clock's id as a parameter — is the model's `nextId last ns` (`nextId_increasing`:
+strictly above the last one written, a multiple of four) -/
+theorem sendPacketMsgId_is_nextId (last ns : Nat) (hl : last + 4 < 2 ^ 63) (h : ns < 2 ^ 31 * 1000000000) :
+    (sendPacketMsgId (generateMessageId (BitVec.ofNat 64 ns)) (BitVec.ofNat 64 last)).toNat = Mtv.Client.nextId last ns := by
+  have hg := generateMessageId_is_genId ns h
+  have hglt : Mtv.Client.genId ns < 2 ^ 63 := by unfold Mtv.Client.genId; omega
+  have hl' : (BitVec.ofNat 64 last).toNat = last := by simp [BitVec.toNat_ofNat]; omega
+  unfold sendPacketMsgId Mtv.Client.nextId
+  rw [sle_nonneg _ _ (by rw [hg]; exact hglt) (by rw [hl']; omega), hg, hl']
+  by_cases hc : Mtv.Client.genId ns ≤ last
+  · simp only [hc, decide_true, if_true]
+    simp [BitVec.toNat_add, BitVec.toNat_ofNat]; omega
+  · simp only [hc, decide_false, if_false]; exact hg
+
+/-- **C10** `serializePacket` writes `client.GetSeqNo() | 1` for a message that requires acknowledgement: odd for every
+32-bit counter value -/
+theorem seqNoContent_odd (s : BitVec 32) : (seqNoContent s).toNat % 2 = 1 := by
+  unfold seqNoContent
+  rw [BitVec.toNat_or]
+  have : (s.toNat ||| (1#32).toNat).testBit 0 = true := by simp [Nat.testBit_or]
+  rw [Nat.testBit_zero] at this
+  simpa using this
+
+/-- **C10** while the counter is even (it starts at 0 and `sendPacket` adds 2 per encrypted message) the two seq_nos written
+are counter + 1 (content-related) and the counter itself (acknowledgements): the odd / even, non-decreasing numbers of
+the machine's `send` / `ack` events -/
+theorem seqNo_of_even (s : BitVec 32) (he : s.toNat % 2 = 0) :
+    (seqNoContent s).toNat = s.toNat + 1 ∧ (seqNoService s).toNat = s.toNat := by
+  refine ⟨?_, rfl⟩
+  unfold seqNoContent
+  rw [BitVec.toNat_or]
+  have h2 : s.toNat = (s.toNat / 2) <<< 1 := by rw [Nat.shiftLeft_eq]; omega
+  have h1 : (1#32).toNat = 1 := by decide
+  rw [h1, h2, ← Nat.shiftLeft_add_eq_or_of_lt (by decide : 1 < 2 ^ 1)]
+example : (seqNoContent 6#32, seqNoService 6#32) = (7#32, 6#32) := by decide
+example : (sendPacketMsgId 1000#64 1000#64, sendPacketMsgId 1000#64 900#64) = (1004#64, 1000#64) := by decide
 
 
 end Mtv.Arith
